@@ -125,9 +125,15 @@ func runEntry(ep string, ro readOpts, in []byte, seq int) string {
 	case "readonly":
 		bs, err := blockstore.NewReadOnly(bytes.NewReader(in), nil, opts...)
 		if err != nil {
+			if os.Getenv("VERIF_DEBUG") != "" {
+				fmt.Fprintln(os.Stderr, "readonly open error:", err)
+			}
 			return "_r=" + classifyIdx(err)
 		}
 		ch, err := bs.AllKeysChan(ctx)
+		if err != nil && os.Getenv("VERIF_DEBUG") != "" {
+			fmt.Fprintln(os.Stderr, "readonly AllKeysChan error:", err)
+		}
 		n := 0
 		if err == nil {
 			for k := range ch {
@@ -136,6 +142,14 @@ func runEntry(ep string, ro readOpts, in []byte, seq int) string {
 				bs.GetSize(ctx, k)
 				n++
 			}
+		}
+		// a store must still close after whatever the queries ran into (a lock left held shows here)
+		cerr := make(chan error, 1)
+		go func() { cerr <- bs.Close() }()
+		select {
+		case <-cerr:
+		case <-time.After(20 * time.Second):
+			panic("ReadOnly.Close does not return")
 		}
 		return fmt.Sprintf("_r=ok _n=%d", n)
 	case "readable":
@@ -400,6 +414,18 @@ func famC09(g *Gen, o *Out, n int, thorough bool) {
 		inputs := [][]byte{arch}
 		for i := 0; i < 8; i++ {
 			inputs = append(inputs, g.c09Mutate(arch, ver))
+		}
+		if ver == 2 && len(arch) > 60 {
+			// the inner CARv1 header's version byte changed (the container and its index stay intact)
+			base := int(leU64(arch[27:35]))
+			if base < len(arch) && arch[base] < 0x80 && base+int(arch[base]) < len(arch) {
+				for _, v := range []byte{2, 3, 0, 4} { // several, so that some meet the default limits
+					m := append([]byte{}, arch...)
+					m[base+int(arch[base])] = v
+					inputs = append(inputs, m)
+				}
+				o.Count("input/inner-version")
+			}
 		}
 		if idxFile != nil { // the same archive with one structural field of its embedded index overwritten
 			for i := 0; i < 3; i++ {
